@@ -104,6 +104,34 @@ theorem c10_dropped (cfg : Cfg) (safe : Bool) (H : Nat) (rc : Bytes → RcAns) (
 example : (processHead cfgBsc false 110 (fun _ => ⟨some ⟨1, bh2⟩, .none⟩) [p1]).pending = [] ∧
           (processHead cfgBsc false 110 (fun _ => ⟨some ⟨1, bh2⟩, .none⟩) [p1]).forwarded = [] := by decide
 
+/-- **Nothing leaves the pending set without cause.** An entry that one processed head removes had reached its depth, and
+was either forwarded, or the node answered conclusively against it (not found / failed / another block), or the lookup failed
+transiently at a head beyond the abandonment window. -/
+theorem c10_removed_only_for_cause (cfg : Cfg) (safe : Bool) (H : Nat) (rc : Bytes → RcAns) (s : List Pend) (p : Pend)
+    (hp : p ∈ s) (hno : NoOverflow cfg p) (hgone : p ∉ (processHead cfg safe H rc s).pending) :
+    p.height + expConf cfg safe p ≤ H % U64 ∧
+    (p ∈ (processHead cfg safe H rc s).forwarded ∨
+     (((rc p.msg.tx).tx = none ∧ (rc p.msg.tx).err = .none) ∨ (rc p.msg.tx).err = .noResult ∨ (rc p.msg.tx).err = .notFound) ∨
+     (∃ r, (rc p.msg.tx).tx = some r ∧ (rc p.msg.tx).err = .none ∧ (r.status ≠ 1 ∨ r.bh ≠ p.key.bh)) ∨
+     ((rc p.msg.tx).err = .other ∧ p.height + expConf cfg safe p + cfg.maxWait ≤ H % U64)) := by
+  unfold processHead processHeadWith at hgone ⊢
+  simp only [List.mem_filter, decide_eq_true_eq, not_and] at hgone ⊢
+  have hk := hgone hp
+  rcases classify_cases cfg safe (H % U64) (rc p.msg.tx) p hno with ⟨h, _⟩ | ⟨hr, h⟩
+  · rw [h] at hk; exact absurd rfl hk
+  · refine ⟨hr, ?_⟩
+    rcases h with ⟨_, h⟩ | ⟨_, h1, h2⟩ | ⟨h, _⟩ | ⟨r, htx, herr, h⟩
+    · exact Or.inr (Or.inl h)
+    · exact Or.inr (Or.inr (Or.inr ⟨h1, h2⟩))
+    · rw [h] at hk; exact absurd rfl hk
+    · rcases h with ⟨_, h⟩ | ⟨_, _, h⟩ | ⟨h, _⟩
+      · exact Or.inr (Or.inr (Or.inl ⟨r, htx, herr, Or.inl h⟩))
+      · exact Or.inr (Or.inr (Or.inl ⟨r, htx, herr, Or.inr h⟩))
+      · exact Or.inl ⟨hp, h⟩
+
+example : p1 ∉ (processHead cfgBsc false 163 (fun _ => ⟨none, .other⟩) [p1]).pending ∧
+          p1 ∈ (processHead cfgBsc false 162 (fun _ => ⟨none, .other⟩) [p1]).pending := by decide
+
 /-- **Only observed messages of the core contract.** Anything ever forwarded in a run was either pending at the start or
 is exactly the message built from a chain log that the node delivered under the watcher's subscription filter: emitted by the
 configured contract with the message-published topic. -/
@@ -556,5 +584,52 @@ theorem c10_settle_head_seen (cfg : Cfg) (st : St) (W : Nat) (rc : Bytes → RcA
   · simp [hc] at h
 
 example : ((settle cfgBsc { pending := [p1], enabled := true, last := 101 } 171 good1).2.map (·.forwarded)) = some [p1] := by decide
+
+/-- The poller is enabled whenever something is pending (so a pending message always gets the next head). -/
+def PollerInv (st : St) : Prop := st.pending ≠ [] → st.enabled = true
+
+theorem c10_poller_enabled_while_pending :
+    (∀ cfg st ev bt, PollerInv (onLog cfg st ev bt)) ∧
+    (∀ cfg st W rc, PollerInv st → PollerInv (settle cfg st W rc).1) := by
+  constructor
+  · intro cfg st ev bt _; rfl
+  · intro cfg st W rc hinv
+    unfold settle settleWith
+    by_cases hc : (st.enabled && decide (W > st.last)) = true
+    · simp only [hc, if_true]
+      intro hne
+      simp only at hne ⊢
+      cases h : (processHeadWith classify cfg false W rc st.pending).pending with
+      | nil => exact absurd h hne
+      | cons a t => simp
+    · simp only [hc]
+      exact hinv
+
+example : PollerInv (onLog cfgBsc { pending := [], enabled := false, last := 100 } ev1 1700000000) := fun _ => rfl
+
+/-- **Watcher and poller together, any increment.** From a state reached by log deliveries and earlier heads (`PollerInv`), a
+pending message whose receipt is fine is forwarded by the very next head the node reports above the poller's last block, if
+that head is at or beyond `height + conf` — by however much. -/
+theorem c10_settle_forwards (cfg : Cfg) (st : St) (W : Nat) (rc : Bytes → RcAns) (p : Pend)
+    (hinv : PollerInv st) (hp : p ∈ st.pending) (hW : st.last < W) (hlt : W < U64) (hno : NoOverflow cfg p)
+    (hrc : rc p.msg.tx = goodRc p) (hready : p.height + expConf cfg false p ≤ W) :
+    ∃ r, (settle cfg st W rc).2 = some r ∧ p ∈ r.forwarded ∧ p ∉ (settle cfg st W rc).1.pending := by
+  have hen : st.enabled = true := hinv (List.ne_nil_of_mem hp)
+  unfold settle settleWith
+  have hc : (st.enabled && decide (W > st.last)) = true := by simp [hen, hW]
+  simp only [hc, if_true]
+  refine ⟨_, rfl, ?_, ?_⟩
+  · unfold processHeadWith
+    simp only [List.mem_filter, decide_eq_true_eq]
+    refine ⟨hp, ?_⟩
+    rw [hrc, Nat.mod_eq_of_lt hlt]
+    exact classify_good cfg false _ p hno hready
+  · unfold processHeadWith
+    simp only [List.mem_filter, not_and]
+    intro _
+    rw [hrc, Nat.mod_eq_of_lt hlt, classify_good cfg false _ p hno hready]
+    decide
+
+example : PollerInv { pending := [p1], enabled := true, last := 101 } ∧ (101 : Nat) < 100000 := ⟨fun _ => rfl, by decide⟩
 
 end Whv.C10
